@@ -198,8 +198,8 @@ def DEPS(count=False, wrapper=False):
     """modules extracted from the pinned `cipher` crate (verified dependency text).  Every unit includes
     them (the repo code is checked against their contracts); their obligations are COUNTED only in the
     `deps` unit, so count=False strips the property tags here."""
-    from contracts import dep_block, dep_stream
-    mods = dep_block.mods() + dep_stream.mods()
+    from contracts import dep_block, dep_stream, dep_common
+    mods = dep_common.mods() + dep_block.mods() + dep_stream.mods()
     if wrapper:
         from contracts import dep_wrapper
         mods = mods + dep_wrapper.mods()
